@@ -97,7 +97,7 @@ func sanitize(s string) string {
 // RunCheck verifies one property; returns the process exit code.
 func RunCheck(id, tier string, seed int, verifDir string) int {
 	t0 := time.Now()
-	e, err := LoadEngine("/repo", filepath.Join(verifDir, "contracts/trusted"))
+	e, err := LoadEngine(repoDir(), filepath.Join(verifDir, "contracts/trusted"))
 	if err != nil {
 		fmt.Printf("hv: cannot load /repo with -tags verif: %v\n", err)
 		return writeBroken(id, tier, seed, verifDir, "load error: "+err.Error(), t0)
@@ -160,7 +160,7 @@ func RunCheck(id, tier string, seed int, verifDir string) int {
 	solveS := time.Since(t0).Seconds() - loadS - genS
 
 	// classify
-	outDir := filepath.Join(verifDir, "replay/out")
+	outDir := filepath.Join(outBase(verifDir), "replay/out")
 	os.MkdirAll(outDir, 0o755)
 	violations := 0
 	knownSeen := []string{}
@@ -323,9 +323,9 @@ func RunCheck(id, tier string, seed int, verifDir string) int {
 		cov["distinct_nontrivial"] = discharged
 	}
 	ev := Evidence{PropertyID: id, Tier: tier, Seed: seed, Level: meta.Level, Coverage: cov, Assumptions: assum, WallS: round3(time.Since(t0).Seconds()), Violations: violations}
-	os.MkdirAll(filepath.Join(verifDir, "evidence"), 0o755)
+	os.MkdirAll(filepath.Join(outBase(verifDir), "evidence"), 0o755)
 	b, _ := json.MarshalIndent(ev, "", " ")
-	os.WriteFile(filepath.Join(verifDir, "evidence", id+".json"), b, 0o644)
+	os.WriteFile(filepath.Join(outBase(verifDir), "evidence", id+".json"), b, 0o644)
 	fmt.Printf("%s %s: %d obligations, %d discharged, %d violations, %d known findings, %.1fs (load %.1f, vcgen %.1f, solve %.1f)\n", id, tier, len(res), discharged, violations, len(knownSeen), time.Since(t0).Seconds(), loadS, genS, solveS)
 	if violations > 0 {
 		return 1
@@ -356,26 +356,28 @@ func totalPaths(fr []*FuncReport) int {
 func round3(f float64) float64 { return float64(int(f*1000+0.5)) / 1000 }
 
 func writeBroken(id, tier string, seed int, verifDir, why string, t0 time.Time) int {
-	f := filepath.Join(verifDir, "replay/out", id+"-engine.json")
+	f := filepath.Join(outBase(verifDir), "replay/out", id+"-engine.json")
 	os.MkdirAll(filepath.Dir(f), 0o755)
 	b, _ := json.MarshalIndent(map[string]interface{}{"property": id, "obligation": id + "/engine/load", "reason": why}, "", " ")
 	os.WriteFile(f, b, 0o644)
 	fmt.Printf("VIOLATION property=%s replay=%s no-failing-input-found\n", id, f)
 	ev := Evidence{PropertyID: id, Tier: tier, Seed: seed, Level: "other", Coverage: map[string]interface{}{"explanation": "engine could not load the repository: " + why, "evaluations": 1, "distinct_nontrivial": 0}, WallS: round3(time.Since(t0).Seconds()), Violations: 1}
-	os.MkdirAll(filepath.Join(verifDir, "evidence"), 0o755)
+	os.MkdirAll(filepath.Join(outBase(verifDir), "evidence"), 0o755)
 	eb, _ := json.MarshalIndent(ev, "", " ")
-	os.WriteFile(filepath.Join(verifDir, "evidence", id+".json"), eb, 0o644)
+	os.WriteFile(filepath.Join(outBase(verifDir), "evidence", id+".json"), eb, 0o644)
 	return 1
 }
 
 // WriteLock regenerates obligations.lock.json from a run over all properties (only discharged or known-finding names).
 func WriteLock(verifDir string, ids []string) error {
-	e, err := LoadEngine("/repo", filepath.Join(verifDir, "contracts/trusted"))
+	e, err := LoadEngine(repoDir(), filepath.Join(verifDir, "contracts/trusted"))
 	if err != nil {
 		return err
 	}
 	lock := map[string][]string{}
+	readJSON(filepath.Join(verifDir, "obligations.lock.json"), &lock) // other properties keep their entries
 	for _, id := range ids {
+		lock[id] = nil
 		fns, modes := e.funcsFor(id)
 		var obs []*Obligation
 		for _, fn := range fns {
@@ -411,5 +413,34 @@ func WriteLock(verifDir string, ids []string) error {
 		sort.Strings(lock[id])
 	}
 	b, _ := json.MarshalIndent(lock, "", " ")
-	return os.WriteFile(filepath.Join(verifDir, "obligations.lock.json"), b, 0o644)
+	if err := os.WriteFile(filepath.Join(verifDir, "obligations.lock.json"), b, 0o644); err != nil {
+		return err
+	}
+	// names of the local variables of every function under contract, in declaration order: lets a contract that
+	// names a local survive a pure rename of that local (see Engine.aliases)
+	locals := map[string][]string{}
+	readJSON(filepath.Join(verifDir, "locals.lock.json"), &locals)
+	for key, fn := range e.fns {
+		if e.hasAnyContract(fn) {
+			locals[key] = e.localNames(fn)
+		}
+	}
+	lb, _ := json.MarshalIndent(locals, "", " ")
+	return os.WriteFile(filepath.Join(verifDir, "locals.lock.json"), lb, 0o644)
+}
+
+// repoDir: the tree under verification. Always /repo for the registered commands; HV_REPO lets experiments
+// (seeded changes in scratch worktrees) run without touching /repo, together with HV_OUT for their reports.
+func repoDir() string {
+	if r := os.Getenv("HV_REPO"); r != "" {
+		return r
+	}
+	return "/repo"
+}
+
+func outBase(verifDir string) string {
+	if o := os.Getenv("HV_OUT"); o != "" {
+		return o
+	}
+	return verifDir
 }
